@@ -12,6 +12,13 @@ func VP_C03_dynbt() {
 	vp.SizeBound(n + 1)
 	vp.MaxSteps(3000000)
 	var v Value
+	if vp.Choice(2) == 1 { // receiver previously used for a list of three bytes and a compound
+		prev := []byte{1, 0, 0, 0, 3, 7, 8, 9}
+		vp.Assume(v.UnmarshalNBT(9, &vpByteReader{b: prev, fail: -1}) == nil)
+		prev2 := []byte{1, 0, 1, 'k', 5, 0}
+		vp.Assume(v.UnmarshalNBT(10, &vpByteReader{b: prev2, fail: -1}) == nil)
+		vp.Assume(v.UnmarshalNBT(9, &vpByteReader{b: prev, fail: -1}) == nil)
+	}
 	err := v.UnmarshalNBT(tag, &vpByteReader{b: b, fail: -1})
 	st, _ := vp.RefNBT(b, 0, tag, 0)
 	switch st {
